@@ -49,6 +49,8 @@ THEOREMS = [
     "SynKit.C10.clauses_1_to_9",
     "SynKit.C10.last_clause_needs_molShape",
     "SynKit.C10.fullStatementMol",
+    "SynKit.Repr.totalH_implicitHydrogen",
+    "SynKit.Repr.implicitHydrogen_free_hydrogen_stays",
 ]
 
 NODE_KEYS = ["element", "aromatic", "hcount", "charge", "neighbors", "atom_map"]
@@ -296,7 +298,9 @@ def h_equal(a, b):
     return canon_graph(a) == canon_graph(b) and node_order(a) == node_order(b)
 
 
-def check_hgraph(ctx, B, G, tag, smiles=None, collect=None):
+def check_hgraph(ctx, B, G, tag, smiles=None, collect=None, pres=None):
+    """`pres`: the preserve_atom_maps list for implicit_hydrogen; drawn from the run PRNG when None (each atom map of a hydrogen
+    node with probability 1/2) and recorded in the case, so that a replay uses the same list."""
     from synkit.Graph.Hyrogen._misc import h_to_explicit, h_to_implicit, implicit_hydrogen, has_XH, has_HH
     gj = enc(G)
     case = {"kind": "hgraph", "graph": gj, **({"smiles": smiles} if smiles else {})}
@@ -307,8 +311,21 @@ def check_hgraph(ctx, B, G, tag, smiles=None, collect=None):
         return
     IE, _ = impl_h(h_to_implicit, graphio.to_nx(E))
     hmaps = sorted({d.get("atom_map") for _, d in G.nodes(data=True) if d.get("element") == "H" and isinstance(d.get("atom_map"), int) and d.get("atom_map") >= 0})
-    pres = [m for m in hmaps if ctx.rnd.random() < 0.5]
+    if pres is None:
+        pres = [m for m in hmaps if ctx.rnd.random() < 0.5]
+    else:
+        pres = sorted({int(m) for m in pres})
+    case["preserve"] = pres
     P, mutated = impl_h(lambda g_: implicit_hydrogen(g_, set(pres)), G)
+    # shape of the input w.r.t. implicit_hydrogen (decided here from the input graph, never by the code under test): hydrogens
+    # that are not preserved and are bonded to a heavy atom are folded; those without heavy neighbour (no bond at all / bonded
+    # to hydrogens only: H, H+, H-, H2) must stay (F29, draft fix 0022)
+    def _is_h(n):
+        return G.nodes[n].get("element") == "H"
+    h_np = [n for n in G.nodes if _is_h(n) and not (isinstance(G.nodes[n].get("atom_map"), int) and G.nodes[n].get("atom_map") in pres)]
+    h_free = [n for n in h_np if G.degree(n) == 0]
+    h_hh = [n for n in h_np if G.degree(n) > 0 and all(_is_h(m) for m in G.neighbors(n))]
+    h_fold = [n for n in h_np if any(not _is_h(m) for m in G.neighbors(n))]
     if mutated:
         ctx.count("b:implicit_hydrogen_mutates_its_input(recorded,not gated)")
     xh, hh = bool(has_XH(G)), bool(has_HH(G))
@@ -366,6 +383,28 @@ def check_hgraph(ctx, B, G, tag, smiles=None, collect=None):
                 {"g": canon_graph(gj), "back": canon_graph(IE)})
         if (xh, hh) != (ig["hasXH"], ig["hasHH"]):
             bad("has_XH / has_HH differ from the model", {"impl": [xh, hh], "model": [ig["hasXH"], ig["hasHH"]]})
+        if not is_err(P):
+            ctx.count("b:implicit_hydrogen:calls")
+            if h_free:
+                ctx.count("b:implicit_hydrogen:non-preserved hydrogen without any bond (must stay; F29)")
+            if h_hh:
+                ctx.count("b:implicit_hydrogen:non-preserved hydrogen bonded to hydrogens only (must stay; F29)")
+            if h_fold:
+                ctx.count("b:implicit_hydrogen:non-preserved hydrogen bonded to a heavy atom (folded)")
+            if (h_free or h_hh) and h_fold:
+                ctx.count("b:implicit_hydrogen:folded and free non-preserved hydrogens in one graph")
+            # theorem implicitHydrogen_free_hydrogen_stays: a hydrogen without heavy neighbour is kept with all its attributes
+            pn = {n: a for n, a in P["nodes"]}
+            gn = {n: a for n, a in gj["nodes"]}
+            lost = [n for n in h_free + h_hh if n not in pn]
+            altered = [n for n in h_free + h_hh if n in pn and pn[n] != gn[n]]
+            if lost or altered:
+                bad("implicit_hydrogen removes / alters a hydrogen that has no heavy neighbour (it was not folded into any hydrogen count)",
+                    {"preserve": pres, "removed": sorted(lost), "altered": sorted(altered)})
+            # theorem totalH_implicitHydrogen: under the valence guard the total hydrogen count is kept, for every preserve list
+            if "P" in info and ig["valence"] and info["P"]["totalH"] != ig["totalH"]:
+                bad("implicit_hydrogen changes the total hydrogen count although hydrogens are monovalent and carry no count",
+                    {"preserve": pres, "before": ig["totalH"], "after": info["P"]["totalH"]})
         # ---- impl = model
         for name, impl in (("E", E), ("I", I), ("IE", IE), ("P", P)):
             mod = models[name]
@@ -380,10 +419,6 @@ def check_hgraph(ctx, B, G, tag, smiles=None, collect=None):
                     no_input=True)
         if nH:
             ctx.count("b:with_explicit_H_nodes")
-        if "P" in info and ig["valence"] and info["P"]["totalH"] != ig["totalH"]:
-            # new observation N1 (not in DESIGN section 6, not gated): implicit_hydrogen deletes non-preserved hydrogens that
-            # have no heavy neighbour (H2, H+), e.g. graph_to_smi("O.[H][H]" graph, preserve_atom_maps=[99]) == "O"
-            ctx.count("b:implicit_hydrogen_changes_total_H(recorded,not gated)")
     B.add({"cmd": "h.info", "graph": gj}, final)
     # molecule unchanged (RDKit trusted), only for graphs that come from a molecule
     if smiles is not None:
@@ -397,13 +432,13 @@ def check_hgraph(ctx, B, G, tag, smiles=None, collect=None):
                 bad(f"the molecule changed after making hydrogens {name}", {"smiles": smiles, "before": c0, "after": c, "raw": se})
 
 
-def hgraph_fails(ctx, G):
+def hgraph_fails(ctx, G, pres=None):
     """re-evaluate one graph in isolation -> True when any gate fires (used by the shrinker)."""
     col = []
     B = Batch(ctx)
     saved = (ctx.evaluations, set(ctx._distinct), dict(ctx.counters), list(ctx.samples))
     st = ctx.rnd.getstate()
-    check_hgraph(ctx, B, G, "shrink", collect=col)
+    check_hgraph(ctx, B, G, "shrink", collect=col, pres=pres)
     B.run()
     ctx.rnd.setstate(st)
     ctx.evaluations, ctx._distinct, ctx.counters, ctx.samples = saved[0], saved[1], saved[2], saved[3]
@@ -422,10 +457,49 @@ def shrink_hgraph(ctx, G, case):
                 break
             H = copy.deepcopy(G)
             H.remove_node(n)
-            if H.number_of_nodes() and hgraph_fails(ctx, H):
+            if H.number_of_nodes() and hgraph_fails(ctx, H, case.get("preserve")):
                 G = H
                 changed = True
-    return {"kind": "hgraph", "graph": enc(G), **({"smiles": case["smiles"]} if "smiles" in case and G.number_of_nodes() == len(case["graph"]["nodes"]) else {})}
+    return {"kind": "hgraph", "graph": enc(G), **({"preserve": case["preserve"]} if "preserve" in case else {}),
+            **({"smiles": case["smiles"]} if "smiles" in case and G.number_of_nodes() == len(case["graph"]["nodes"]) else {})}
+
+
+def synth_free_hgraph(rnd):
+    """A molecule-like graph on which the hydrogen-count gate of implicit_hydrogen applies (hydrogens monovalent, no count of their
+    own): a short heavy-atom chain, explicit hydrogens bonded to it, and 1-3 free hydrogen species next to it - H, H+, H- without
+    any bond, or H2 - all with their own atom maps, so that the random preserve list names some of them and not others."""
+    import networkx as nx
+    G = nx.Graph()
+    nid = [0]
+
+    def add(el, charge=0, hcount=0):
+        nid[0] += rnd.choice([1, 1, 1, 2, 5])
+        G.add_node(nid[0], element=el, aromatic=False, charge=charge, hcount=hcount, atom_map=nid[0] if rnd.random() < 0.85 else 0)
+        return nid[0]
+    heavy = []
+    for _ in range(rnd.randint(0, 3)):
+        v = add(rnd.choice(["C", "C", "N", "O", "Cl"]), charge=rnd.choice([0, 0, 0, 1, -1]), hcount=rnd.choice([0, 0, 1, 2]))
+        if heavy:
+            G.add_edge(heavy[-1], v, order=rnd.choice([1.0, 1.0, 2.0]))
+        heavy.append(v)
+    for v in heavy:
+        for _ in range(rnd.choice([0, 0, 1, 2])):
+            G.add_edge(v, add("H"), order=1.0)
+    for _ in range(rnd.randint(1, 3)):
+        if rnd.random() < 0.4:
+            G.add_edge(add("H"), add("H"), order=1.0)
+        else:
+            add("H", charge=rnd.choice([0, 1, 1, -1]))
+    if rnd.random() < 0.5:                      # node order is not the id order
+        order = list(G.nodes)
+        rnd.shuffle(order)
+        H = nx.Graph()
+        H.add_nodes_from((n, G.nodes[n]) for n in order)
+        es = list(G.edges(data=True))
+        rnd.shuffle(es)
+        H.add_edges_from((v, u, d) if rnd.random() < 0.5 else (u, v, d) for u, v, d in es)
+        G = H
+    return G
 
 
 def synth_hgraph(rnd):
@@ -760,7 +834,7 @@ def run_case(ctx, B, c):
         if g is not None:
             check_hgraph(ctx, B, g, "replay", smiles=c["smiles"])
     elif k == "hgraph":
-        check_hgraph(ctx, B, graphio.to_nx(c["graph"]), "replay", smiles=c.get("smiles"))
+        check_hgraph(ctx, B, graphio.to_nx(c["graph"]), "replay", smiles=c.get("smiles"), pres=c.get("preserve"))
     elif k == "its":
         check_its(ctx, B, its_from_json(c["its"]), "replay", c.get("origin"))
     elif k == "rsmi":
@@ -796,14 +870,17 @@ def run(ctx):
         "nodes=None, its=False; GML export for explicit_hydrogen=False",
         "ITS graphs have the shape ITSGraph/get_rc produce (ItsShape): typesGH rows with equal element strings over [A-Za-z*], integer "
         "charges, element/charge repeating the reactant side, order pairs over {0,1,1.5,2,3} not both 0; counted when it fails",
-        "hydrogen-count preservation of h_to_implicit is gated only when hydrogens are monovalent and carry no count (HValence), the "
-        "round trip only under the guard NoHeavyBoundH of the theorem",
+        "hydrogen-count preservation of h_to_implicit and of implicit_hydrogen is gated only when hydrogens are monovalent and carry no "
+        "count (HValence), the round trip only under the guard NoHeavyBoundH of the theorem; 'a hydrogen without heavy neighbour is kept "
+        "unchanged by implicit_hydrogen' is gated on every graph the function accepts",
     ]
     ctx.gen_rule = (
         "regression corpus first; (a) every vendored molecule (corpus/c10_molecules.txt: charged, aromatic, hetero-aromatic, "
         "organometallic, explicit-H and stereo spellings) + the unmapped fragments of the vendored corpus reactions (sample in quick, "
         "all in thorough) + mapped reaction sides; (b) the graphs of (a) + mapped sides with non-contiguous ids + random synthetic "
-        "graphs with hydrogens in odd places (H-H, bridging, with own count, isolated, missing/negative counts) + ALL graphs with <=2 "
+        "graphs with hydrogens in odd places (H-H, bridging, with own count, isolated, missing/negative counts) + molecule-like graphs "
+        "with bonded explicit hydrogens and 1-3 free hydrogen species (H, H+, H-, H2) with own atom maps (quick 120, thorough 1200; "
+        "implicit_hydrogen is called with a random subset of the hydrogens' atom maps) + ALL graphs with <=2 "
         "(quick) / <=3 (thorough) nodes over 5 labels; (c) all element x charge labels -12..12, a malformed-label stream, the ITS and "
         "centre of corpus reactions and of their renumberings, random synthetic ITS graphs with multiple and changing charges, each "
         "exported core/full x reindex on/off; (d) five export routes x reindex for corpus reactions and one renumbering each.")
@@ -854,11 +931,20 @@ def run(ctx):
         if len(ctx.violations) >= 12:
             break
     B.run()
+    # free hydrogen species (H, H+, H-, H2) next to a molecule with bonded explicit hydrogens: drives the branch of
+    # implicit_hydrogen that keeps a non-preserved hydrogen without heavy neighbour (F29) on graphs where the count gate applies
+    for _ in range(120 if ctx.quick else 1200):
+        check_hgraph(ctx, B, synth_free_hgraph(rnd), "synthetic-free-hydrogens")
+        if len(ctx.violations) >= 12:
+            break
+    B.run()
     nmax = 2 if ctx.quick else 3
     for G in tiny_hgraphs(nmax):
         check_hgraph(ctx, B, G, "tiny-exhaustive")
         if len(B.reqs) > 20000:
             B.run()
+        if len(ctx.violations) >= 12:
+            break
     B.run()
     ctx.extra["exhaustive"] = False
     ctx.extra["exhaustive_part"] = f"all hydrogen graphs with <= {nmax} nodes over labels C/0, C/2, H/0, H/1, O/no-count and all edge sets"
